@@ -81,4 +81,14 @@ theorem de25_history (U : Unicode) (hU : U.WF) (hist : List (List Nat))
     order of index buckets) nor the algorithm singletons. -/
 theorem live_no_shared_writes : Gen.sharedWritesAfterImport = [] := by decide
 
+/-- …and no module-level or class-level container, `functools` cache, mutable default argument,
+    closure cell or function attribute of the schwifty modules: nothing a later call could read. -/
+theorem live_no_module_state_writes : Gen.moduleStateWrites = [] := by decide
+
+/-- The only state the (per-thread) algorithm objects carry from one call to the next is the scratch
+    the model threads through the engine (`remainder`) and the write-only `weighted_sum`: the
+    history theorem above is about all of it. -/
+theorem live_scratch_attrs :
+    Gen.threadScratchAttrs.all (fun a => a == "remainder" || a == "weighted_sum") = true := by decide
+
 end SV.Props.C15
